@@ -138,6 +138,7 @@ def stage_b(ctx, front, cfgp, label, max_len=30, max_paths=None, vmap=None, grap
 
 
 NAMES = [[], ['a'], ['a', 'b'], ['a', 'b', 'c'], ['a', 'c'], ['b'], ['a', 'b', 'd'], ['b', 'a']]
+DEEP_NAMES = [['a', 'b', 'd', 'e'], ['a', 'b', 'd', 'e', 'f'], ['a', 'b', 'd', 'e', 'f', 'g'], ['b', 'a', 'e', 'f']]
 REPRS = ['uri', 'strlist', 'byteslist', 'bytearraylist', 'memviewlist', 'wire', 'wirebuf', 'mutbuf', 'tuple', 'iter']
 
 
@@ -192,7 +193,7 @@ def random_schedule(rng, front, n_events, weights=None, junk=None, max_ints=10, 
             elif a == 'RecvInterest':
                 params = rng.random() < p_params
                 signed = (params and rng.random() < 0.5) or (not params and rng.random() < 0.08)
-                it = {'name': rng.choice(NAMES[1:]), 'params': params, 'pe': params and rng.random() < 0.3, 'signed': signed,
+                it = {'name': rng.choice([n for n in names if n] or NAMES[1:]), 'params': params, 'pe': params and rng.random() < 0.3, 'signed': signed,
                       'digOk': (rng.random() < p_dig) if params else not signed,
                       'tok': rng.choice([0, 0, 1, 2, 3, 4, 5]), 'life': rng.choice([0, 1, 1, 2, 3, 400])}
                 env = rng.choice(['lp', 'lph', 'lpo']) if it['tok'] else rng.choice(['bare', 'lp', 'lph', 'lpo'])
@@ -250,7 +251,8 @@ def stage_c_long(ctx, front, n, max_ints=100, n_events=600):
         vs = (['RAISE'] * 6 + ['FAIL', 'TIMEOUT', 'PASS']) if front == 'v2' else (['RAISE'] * 5 + ['F', 'T'])
         if i % 2:
             vs = (['PASS'] * 3 + ['FAIL', 'RAISE', 'BYPASS']) if front == 'v2' else ['T', 'T', 'F', 'RAISE']
-        rec = random_schedule(ctx.rng, front, n_events, max_ints=max_ints, verdicts=vs, p_params=0.9, p_val=0.9, p_dig=0.95,
+        rec = random_schedule(ctx.rng, front, n_events, max_ints=max_ints, verdicts=vs, p_params=0.9, p_val=0.6 if i % 2 else 0.9, p_dig=0.95,
+                              names=NAMES + DEEP_NAMES,
                               weights=dict(Attach=2, AttachDup=0.5, Detach=0.5, RecvInterest=10, IntValFinish=9, Reply=6, Tick=1,
                                            Shutdown=0.02, Connect=3, RecvJunk=0.3))
         recs.append(rec)
